@@ -9,8 +9,11 @@
    read that overlaps other calls is ReadBegin t p / ReadEnd t (the entity list is taken,
    then the reply is built from it: the two critical sections of the handler), so
    "forall ops" is "for all histories and all interleavings" of reads with entity, feature
-   and function additions and removals and with GetOrAddFeature steps. *)
+   and function additions and removals and with GetOrAddFeature steps.  Feature creation
+   overlapping on one entity object without hooks is [Burst e calls], see
+   C07_burst_any_interleaving. *)
 From Verif Require Import Base.Prelude Model.LocalTree Spec.TreeSpec Proofs.TreeProofs.
+Require Import Coq.Sorting.Permutation.
 
 (* Every history, every schedule: every discovery reply is exactly render(current tree)
    -- for a read that overlaps other calls: it lists exactly the entities that were
@@ -52,6 +55,57 @@ Theorem C07_get_or_add_sched : forall ops e o,
   assoc_N e (objs (fst (run init ops))) = Some o -> NoDup (map tr_of (e_feats o)).
 Proof. exact type_role_unique. Qed.
 Print Assumptions C07_get_or_add_sched.
+
+(* Overlapping feature creation on one entity object.  [Burst e calls] is that many goroutines
+   released together (NextFeatureId alone, NewFeatureLocal(NextFeatureId) + AddFeature,
+   GetOrAddFeature; pairwise different (type, role)); the runner executes it with real
+   parallelism and without hooks.  Every call takes its id in one atomic step, so an
+   interleaving is an order of the calls: ANY permutation calls' of the calls, run one after
+   the other as ordinary operations, takes exactly the ids the burst takes (the same list
+   next, next+1, ...: no duplicate, nothing below the generator's position before the
+   burst) and leaves the same feature id generators.  With C07_trace_accepted (whose
+   histories contain bursts: clause FRESH judges every id of a burst against the others and
+   against everything handed out before) and C07_ids_never_reused no two features of an
+   entity share a number under any interleaving of concurrent creation. *)
+Theorem C07_burst_any_interleaving : forall ops e calls calls',
+  let s := fst (run init ops) in
+  assoc_N e (objs s) <> None -> burst_wf calls = true -> Permutation calls calls' ->
+  consumed (snd (step s (Burst e calls))) = consumed (concat (map snd (snd (run s (map (bcall_op e) calls'))))) /\
+  ctrs (fst (step s (Burst e calls))) = ctrs (fst (run s (map (bcall_op e) calls'))) /\
+  NoDup (consumed (snd (step s (Burst e calls)))) /\
+  (forall id, In id (consumed (snd (step s (Burst e calls)))) -> (ctr_of (ctrs s) e <= id)%N).
+Proof. exact burst_any_interleaving_reachable. Qed.
+Print Assumptions C07_burst_any_interleaving.
+
+(* Non-vacuity of the bursts: five overlapping calls on entity 1 (GetOrAddFeature of the
+   existing (4, 2) takes no id, the other four take 2 3 4 5), a burst naming (5, 1) twice is
+   refused, a burst on a missing entity object, a burst whose AddFeature is dropped as a
+   duplicate (its id 6 is consumed all the same), then the read announces 1 2 4 5 -- unique,
+   resolving -- and the generator continues at 8. *)
+Example C07_nonvacuous_burst :
+  let ops := [NewEntity 1 5; AddFeature 1 4 2 0 []; AddEntity 1;
+              Burst 1 [BAdd 5 2; BNext; BGet 4 2; BGet 6 1; BAdd 7 1];
+              Burst 1 [BAdd 5 1; BGet 5 1]; Burst 9 [BNext]; Burst 1 [BAdd 4 2; BNext]; Read 0; NextId 1] in
+  map snd (snd (run init ops)) =
+    [[Created]; [FeatId 1]; [];
+     [FeatId 2; FeatId 3; GRet 1 false; GRet 4 true; FeatId 5];
+     [BadBurst]; [NoEntity]; [FeatId 6; FeatId 7];
+     [RBegin 0 true; REnt 0 1 0; REnt 1 5 0;
+      RFeat 0 0 1 3 0 0 1 3; RFn 1 true false false false; RFn 2 true false false false; RFn 3 true false false false;
+      RFn 4 false false false false; RFn 5 false false false false; RFn 6 true false false false;
+      RFn 7 false false false false; RFn 8 false false false false; RFn 9 true false false false;
+      RFeat 0 1 2 2 0 1 2 2; RFn 10 true false false false;
+      RFeat 1 1 4 2 0 1 4 2; RFeat 1 2 5 2 0 2 5 2; RFeat 1 4 6 1 1 4 6 1; RFeat 1 5 7 1 0 5 7 1; REnd];
+     [FeatId 8]]%N /\
+  strictly_accepted (judge minit sinit (snd (run init ops))) = true.
+Proof. vm_compute. split; reflexivity. Qed.
+
+(* a burst handing out one number twice (what a NextFeatureId that is not one atomic step
+   produces) is rejected by the monitor: FRESH *)
+Example C07_burst_duplicate_rejected :
+  snd (mon minit (Burst 0 [BNext; BNext]) [FeatId 2; FeatId 2]%N) = [CL_FRESH] /\
+  snd (mon minit (Burst 0 [BNext; BNext]) [FeatId 2; FeatId 3]%N) = [].
+Proof. vm_compute. split; reflexivity. Qed.
 
 (* Snapshot semantics of the two-step read, explicitly: after any history ops1, a read begun
    on a free thread t and ended after ANY operations ops2 of other threads (entities,
